@@ -57,14 +57,26 @@ impl Rng {
     }
 }
 
-pub const FNV_INIT: u64 = 0xcbf2_9ce4_8422_2325;
+/// File fingerprints: a Fletcher-style pair of sums modulo the prime 2^32 - 5, packed as `b << 32 | a`
+/// (additions only, so that the Coq-extracted monitors can recompute it cheaply). The names keep `fnv`
+/// for historical reasons.
+pub const FNV_INIT: u64 = 0;
+const FP_P: u64 = 4_294_967_291;
 
-pub fn fnv_extend(mut h: u64, data: &[u8]) -> u64 {
-    for &b in data {
-        h ^= b as u64;
-        h = h.wrapping_mul(0x0000_0100_0000_01b3);
+pub fn fnv_extend(h: u64, data: &[u8]) -> u64 {
+    let mut a = h & 0xffff_ffff;
+    let mut b = h >> 32;
+    for &x in data {
+        a += x as u64 + 1;
+        if a >= FP_P {
+            a -= FP_P;
+        }
+        b += a;
+        if b >= FP_P {
+            b -= FP_P;
+        }
     }
-    h
+    (b << 32) | a
 }
 
 /// Fingerprint printed as `len:fnv64hex`.
